@@ -17,7 +17,7 @@ class Unpicklable:
 
 
 _EXC = {"ValueError": ValueError, "KeyError": KeyError, "RuntimeError": RuntimeError, "Boom": Boom,
-        "ZeroDivisionError": ZeroDivisionError, "AssertionError": AssertionError}
+        "ZeroDivisionError": ZeroDivisionError, "AssertionError": AssertionError, "StopIteration": StopIteration}
 
 
 def task(spec: dict, *extra: Any) -> Any:
